@@ -251,3 +251,75 @@ def _adjacency_pairs(node, p):
 
     leaf(node)
     return pairs, ok
+
+
+# ------------------------------------------------------------------ kernel closed forms
+
+
+def kernel_specs(ctx, families, rule_id="K-SPEC", include_singular=True):
+    """Registered Green's-function kernels of the given families equal their closed forms; fast paths consistent."""
+    reg = K.registries(ctx)
+    r = ctx.rule(rule_id, "registered kernels of %s == closed form (G, dG/dn_y, dG/dn_x) for all points, normals, wavenumbers" % "/".join(families), 1)
+    vals = {}
+    for regname, sing in (("kernel_functions_regular", False), ("kernel_functions_singular", True)):
+        if sing and not include_singular:
+            continue
+        for kt, fname in sorted(reg[regname].items()):
+            if "far_field" in kt:
+                continue
+            fam, layer = K.split_type(kt)
+            if fam not in families:
+                continue
+            v, ifs, ok = K.extract_checked(ctx, fname, sing, K.n_params(kt))
+            vals[(kt, sing)] = (fname, v)
+            ln = ctx.repo.mod(NK).fn(fname).lineno
+            r.check(v.eq(K.spec(kt)) and ok, "%s (%s)" % (fname, kt), NK, fname, ln, kt + " != closed form",
+                    "kernel value differs from the closed form of %s%s" % (kt, "" if ok else " (fast path inconsistent)"))
+    return vals
+
+
+# ------------------------------------------------------------------ factory sites
+
+
+def factory_sites(ctx, subdir, only_files=None, rule_id=None):
+    """Every operator factory's literal (kernel_type, assembly_type) pair exists in the registries the assembler of
+    that operator class consults; complexness and kernel dimension agree with the family."""
+    from . import factories
+
+    reg = K.registries(ctx)
+    r = ctx.rule(rule_id or "FACTORY-%s" % subdir.upper(), "factories in operators/%s: (kernel_type, assembly_type) registered for every mode used; is_complex / kernel_dimension match the family" % subdir, 1)
+    out = []
+    for s in factories.sites(ctx, subdir):
+        if only_files is not None and s.rel.split("/")[-1] not in only_files:
+            continue
+        kt, at = s.lit("kernel_type"), s.lit("assembly_type")
+        inst = "%s::%s" % (s.rel.split("/")[-1], s.fn.name)
+        if not isinstance(kt, str) or not isinstance(at, str):
+            r.fail(inst, s.rel, s.fn.name, s.call.lineno, "non-literal kernel/assembly type", "kernel_type / assembly_type are not string literals")
+            continue
+        probs = []
+        if subdir == "boundary":
+            if at in reg["assembly_functions_sparse"]:
+                if kt not in reg["kernel_functions_sparse"]:
+                    probs.append("kernel type %r not in the sparse kernel registry" % kt)
+            else:
+                for mode in ("regular", "singular"):
+                    if at not in reg["assembly_functions_" + mode]:
+                        probs.append("assembly type %r not registered for mode %s" % (at, mode))
+                    if kt not in reg["kernel_functions_" + mode]:
+                        probs.append("kernel type %r not registered for mode %s" % (kt, mode))
+        else:
+            if at not in reg["assembly_function_potential"]:
+                probs.append("assembly type %r not in the potential registry" % at)
+            if kt not in reg["kernel_functions_regular"]:
+                probs.append("kernel type %r not in the regular kernel registry (used by mode='potential')" % kt)
+        cx = s.lit("is_complex")
+        fam_complex = kt.startswith("helmholtz") or at.startswith("maxwell") or at.startswith("helmholtz")
+        if at not in reg["assembly_functions_sparse"] and cx is not None and cx != fam_complex:
+            probs.append("is_complex=%r but the %s family is %s" % (cx, kt, "complex" if fam_complex else "real"))
+        kd = s.lit("kernel_dimension")
+        if kd is not None and kd != (3 if at.startswith("maxwell") else 1):
+            probs.append("kernel_dimension=%r for assembly type %s" % (kd, at))
+        r.check(not probs, inst + " (%s, %s)" % (kt, at), s.rel, s.fn.name, s.call.lineno, "factory (%s, %s): %s" % (kt, at, "; ".join(probs)), "; ".join(probs))
+        out.append(s)
+    return out
